@@ -40,6 +40,7 @@ type task struct {
 	st       string // enter waiting got reffed valok stale holding failed closed
 	finished bool
 	err      error
+	gen      int // which rc of its key the flight handed to the task (-1: none)
 }
 
 type flightSt struct {
@@ -49,6 +50,7 @@ type flightSt struct {
 	gensAt   int // len(gens[k]) when the flight began
 	gid      int64
 	reqOpen  bool // the request is at the server, the transfer has not ended (freq .. fbody)
+	resGen   int  // index of the rc the flight returns
 }
 
 type taskDone struct {
@@ -77,6 +79,8 @@ type sched struct {
 	broken   bool
 	quiet    bool // replaying a corpus script: same protocol, counted separately
 	cur      string
+	raceGid  atomic.Int64 // goroutine whose Close is to be stopped at c10.done
+	raceCh   chan *park
 }
 
 func newSched(r *hx.Run, layers []*layer) (*sched, error) {
@@ -85,7 +89,7 @@ func newSched(r *hx.Run, layers []*layer) (*sched, error) {
 		return nil, err
 	}
 	s := &sched{r: r, root: root, keyIdx: map[string]int{}, flights: map[int]*flightSt{}, arrive: make(chan *park, 1024),
-		doneCh: make(chan taskDone, 1024), byGid: map[int64]*task{}, gens: map[int][]any{}, orphaned: map[int]bool{}, atServer: map[int]bool{}}
+		doneCh: make(chan taskDone, 1024), raceCh: make(chan *park, 4), byGid: map[int64]*task{}, gens: map[int][]any{}, orphaned: map[int]bool{}, atServer: map[int]bool{}}
 	s.srv = newServer(layers)
 	for _, l := range layers {
 		s.keyIdx[l.digest] = l.idx
@@ -110,6 +114,18 @@ func (s *sched) hook(site, key string) {
 		return
 	}
 	if s.abandon.Load() {
+		return
+	}
+	if site == "c10.done" {
+		// the cleanup callback of an rc whose count has just reached zero. It runs on
+		// whatever goroutine released the last reference (the scheduler's own for a
+		// plain close): only the closer of a closerace stops here.
+		if g := s.raceGid.Load(); g == 0 || g != hx.GoID() {
+			return
+		}
+		p := &park{site: site, key: k, gid: hx.GoID(), rel: make(chan struct{})}
+		s.raceCh <- p
+		<-p.rel
 		return
 	}
 	p := &park{site: site, key: k, gid: hx.GoID(), rel: make(chan struct{})}
@@ -218,6 +234,155 @@ func (s *sched) keyState(k int) string {
 	return strings.Join(cells, " ")
 }
 
+func (s *sched) genIndex(k int, x any) int {
+	s.mu.Lock()
+	defer s.mu.Unlock()
+	for i, g := range s.gens[k] {
+		if g == x {
+			return i
+		}
+	}
+	return -1
+}
+
+// lastHolder reports whether the holding task a owns the only reference on its rc.
+func (s *sched) lastHolder(a *task) bool {
+	s.mu.Lock()
+	gs := s.gens[a.key]
+	s.mu.Unlock()
+	if a.gen < 0 || a.gen >= len(gs) {
+		return false
+	}
+	c, _ := libindex.RcStateForVerif(gs[a.gen])
+	return c == 1
+}
+
+// closeRace is a Close of the last holder `a` racing with the Ref of a task `b` that was
+// handed the same rc: the closer is stopped at the start of the rc's cleanup callback (the
+// count has just reached zero, the key is not yet forgotten, the file not yet closed) and b's
+// Ref is released. The code runs that callback inside rc.dec's critical section, so b must
+// block on the rc mutex until the release is complete (protocol order: close a, ref b, b sees
+// a dead rc). If b's Ref gets through instead, the release was not atomic; the scenario then
+// asks for the layer once more to see whether it is downloaded while b holds it.
+func (s *sched) closeRace(a, b *task) {
+	s.cur = fmt.Sprintf("closerace %d %d", a.id, b.id)
+	if !s.quiet {
+		s.r.Count("op:closerace")
+	}
+	done := make(chan error, 1)
+	started := make(chan struct{})
+	go func() {
+		s.raceGid.Store(hx.GoID())
+		close(started)
+		var err error
+		if hx.Guard(func() string { err = a.cl.Close(); return "" }) == "panic" {
+			err = fmt.Errorf("panic in Close")
+		}
+		done <- err
+	}()
+	<-started
+	closeErr := func(err error) string {
+		a.st = "closed"
+		if err != nil {
+			s.fail("", fmt.Sprintf("close-of-task%d-failed err=%v", a.id, err))
+			return "closeerr"
+		}
+		return "closed"
+	}
+	// both halves have completed: one protocol line for the pair
+	pairLine := func(err error) {
+		out := closeErr(err)
+		b.st = "reffed"
+		s.cur = ""
+		s.ops = append(s.ops, fmt.Sprintf("closerace %d %d", a.id, b.id))
+		s.r.Op(fmt.Sprintf("closeref %d %d", a.id, b.id), out+" ref | "+s.keyState(a.key), true)
+	}
+	var rp *park
+	select {
+	case rp = <-s.raceCh:
+	case err := <-done:
+		// the count did not reach zero: an ordinary close
+		s.raceGid.Store(0)
+		out := closeErr(err)
+		s.cur = ""
+		s.ops = append(s.ops, fmt.Sprintf("close %d", a.id))
+		s.r.Op(fmt.Sprintf("close %d", a.id), out+" | "+s.keyState(a.key), true)
+		return
+	case <-time.After(30 * time.Second):
+		s.raceGid.Store(0)
+		s.fail("", "no-progress closer-neither-returned-nor-reached-the-cleanup-callback")
+		s.broken = true
+		return
+	}
+	s.raceGid.Store(0)
+	s.releaseTask(b)
+	// b either gets through Ref (parks at c10.reffed) or blocks on the rc mutex
+	through := false
+	deadline := time.Now().Add(30 * time.Second)
+	for {
+		select {
+		case p := <-s.arrive:
+			s.place(p)
+		default:
+		}
+		if b.at != nil {
+			through = true
+			break
+		}
+		if st := goState(b.gid); st == "sync.Mutex.Lock" || st == "semacquire" {
+			break
+		}
+		if time.Now().After(deadline) {
+			close(rp.rel)
+			<-done
+			s.fail("", fmt.Sprintf("no-progress task%d-neither-took-its-reference-nor-blocked-on-the-rc-lock", b.id))
+			s.broken = true
+			return
+		}
+		time.Sleep(20 * time.Microsecond)
+	}
+	if !through {
+		if !s.quiet {
+			s.r.Count("branch:ref-waits-for-the-release-in-progress")
+		}
+		close(rp.rel)
+		err := <-done
+		if s.pump("reffed", func() bool { return b.at != nil || b.finished }) && b.at != nil && b.at.site == "c10.reffed" {
+			pairLine(err)
+		} else if !s.broken {
+			s.fail("", fmt.Sprintf("task%d-did-not-take-its-reference-after-the-release", b.id))
+			s.broken = true
+		}
+		return
+	}
+	// the reference was taken in the middle of the release
+	if !s.quiet {
+		s.r.Count("branch:ref-inside-a-release")
+	}
+	close(rp.rel)
+	pairLine(<-done)
+	// does the arena still know the file b now holds? ask for the layer once more
+	s.val(b)
+	if b.st != "valok" {
+		return
+	}
+	s.initTask(b)
+	if b.st != "holding" || s.broken {
+		return
+	}
+	c := s.spawn(b.key, false)
+	if s.broken || c.st != "enter" {
+		return
+	}
+	s.enter(c)
+	if f := s.flights[b.key]; !s.broken && f != nil && f.at != nil && f.at.site == "c10.flight.begin" {
+		s.fload(b.key)
+		if f.at != nil && f.at.site == "c10.flight.miss" && !s.broken {
+			s.fnet(b.key, true, srvOK)
+		}
+	}
+}
+
 func (s *sched) emit(line string, k int, outcome string) {
 	s.cur = ""
 	s.ops = append(s.ops, line)
@@ -231,7 +396,7 @@ func (s *sched) emit(line string, k int, outcome string) {
 
 func (s *sched) spawn(k int, badURI bool) *task {
 	ctx, cancel := context.WithCancel(context.Background())
-	t := &task{id: len(s.tasks), key: k, badURI: badURI, ctx: ctx, cancel: cancel, layer: new(claircore.Layer)}
+	t := &task{id: len(s.tasks), key: k, badURI: badURI, ctx: ctx, cancel: cancel, layer: new(claircore.Layer), gen: -1}
 	t.desc = s.srv.desc(k, badURI)
 	s.tasks = append(s.tasks, t)
 	do := s.arena.FetchIntoForVerif(ctx, t.layer, &t.cl, &t.desc)
@@ -328,6 +493,7 @@ func (s *sched) fload(k int) {
 	switch site {
 	case "hit":
 		f.resultOK = true
+		f.resGen = s.genIndex(k, s.arena.ArenaEntryForVerif(s.srv.layers[k].digest))
 	case "miss":
 	case "end":
 		out = "invalid"
@@ -418,6 +584,7 @@ func (s *sched) fstore(k int) {
 	if n > f.gensAt {
 		out = "stored"
 		f.resultOK = true
+		f.resGen = n - 1
 	}
 	s.emit(fmt.Sprintf("fstore %d", k), k, out)
 }
@@ -475,6 +642,7 @@ func (s *sched) fend(k int) {
 		}
 		if f.resultOK {
 			t.st = "got"
+			t.gen = f.resGen
 			continue
 		}
 		// an error result: the task returns it
@@ -730,6 +898,15 @@ func (s *sched) enabled(rnd *hx.Rand, drain bool) []choice {
 		case "valok":
 			cs = append(cs, choice{6, func() { s.initTask(t) }, "init"})
 		case "holding":
+			if s.lastHolder(t) {
+				for _, b := range s.tasks {
+					b := b
+					if b.st == "got" && b.key == t.key && b.gen == t.gen {
+						cs = append(cs, choice{6, func() { s.closeRace(t, b) }, "closerace"})
+						break
+					}
+				}
+			}
 			w := 4
 			if drain {
 				w = 10
